@@ -34,28 +34,94 @@ def sequences(alphabet, max_len):
             yield s
 
 
-def to_expr(tree):
+MODES = [("plain", False), ("fresh", False), ("one", False), ("fresh", True), ("plain", True), ("one", True)]
+_SYM = []
+
+
+def _sym_class():
+    """A user-defined predicate over one letter, equal (and hashing alike) to every other instance for that letter - the
+    way the language modules' own predicates (Name(), Symbol("(")) are built afresh at every use."""
+    if not _SYM:
+        from codelimit.common.gsm.predicate.Predicate import Predicate
+
+        class Sym(Predicate):
+            def __init__(self, ch):
+                self.ch = ch
+
+            def accept(self, item):
+                return item == self.ch
+
+            def __eq__(self, other):
+                return isinstance(other, Sym) and other.ch == self.ch
+
+            def __hash__(self):
+                return hash(("Sym", self.ch))
+
+            def __str__(self):
+                return self.ch
+
+        _SYM.append(Sym)
+    return _SYM[0]
+
+
+def to_expr(tree, atoms="plain", share=False, _memo=None, _one=None):
     """Tree -> codelimit Expression (a list whose items are atoms or Operators; concatenation is flattened,
-    because expression_to_nfa treats a list nested in a list as an atom)."""
+    because expression_to_nfa treats a list nested in a list as an atom).
+    atoms: 'plain' items | 'fresh' (an equal but distinct predicate object at every occurrence) | 'one' (one predicate
+    object per letter, reused). share: identical sub-patterns are one and the same operator object, used at several
+    places of the pattern."""
     from codelimit.common.gsm.operator.OneOrMore import OneOrMore
     from codelimit.common.gsm.operator.Optional import Optional
     from codelimit.common.gsm.operator.Union import Union
     from codelimit.common.gsm.operator.ZeroOrMore import ZeroOrMore
 
+    if _memo is None:
+        _memo, _one = {}, {}
     t = tree[0]
     if t == "sym":
-        return [tree[1]]
+        if atoms == "plain":
+            return [tree[1]]
+        if atoms == "fresh":
+            return [_sym_class()(tree[1])]
+        if tree[1] not in _one:
+            _one[tree[1]] = _sym_class()(tree[1])
+        return [_one[tree[1]]]
     if t == "cat":
-        return to_expr(tree[1]) + to_expr(tree[2])
+        return to_expr(tree[1], atoms, share, _memo, _one) + to_expr(tree[2], atoms, share, _memo, _one)
+    if share and tree in _memo:
+        return [_memo[tree]]
+    sub = lambda x: to_expr(x, atoms, share, _memo, _one)  # noqa: E731
     if t == "alt":
-        return [Union(to_expr(tree[1]), to_expr(tree[2]))]
-    if t == "opt":
-        return [Optional(to_expr(tree[1]))]
-    if t == "star":
-        return [ZeroOrMore(to_expr(tree[1]))]
-    if t == "plus":
-        return [OneOrMore(to_expr(tree[1]))]
-    raise ValueError(tree)
+        op = Union(sub(tree[1]), sub(tree[2]))
+    elif t == "opt":
+        op = Optional(sub(tree[1]))
+    elif t == "star":
+        op = ZeroOrMore(sub(tree[1]))
+    elif t == "plus":
+        op = OneOrMore(sub(tree[1]))
+    else:
+        raise ValueError(tree)
+    _memo[tree] = op
+    return [op]
+
+
+def has_repeated_subpattern(tree) -> bool:
+    """Some operator sub-pattern occurs at two places (so that share=True really shares an object)."""
+    seen, dup = set(), False
+
+    def walk(x):
+        nonlocal dup
+        if x[0] == "sym":
+            return
+        if x[0] != "cat":
+            if x in seen:
+                dup = True
+            seen.add(x)
+        for c in x[1:]:
+            walk(c)
+
+    walk(tree)
+    return dup
 
 
 def nullable_repetition_family(max_body=4):
@@ -74,6 +140,22 @@ def nullable_repetition_family(max_body=4):
                 for a in ATOMS[:2]:
                     out.append(("cat", rep, ("sym", a)))
                     out.append(("cat", ("sym", a), rep))
+    return out
+
+
+def shared_family():
+    """Patterns in which one operator sub-pattern X occurs at two or three places (X b X, X X, (X a | X), (X c X)+,
+    X (b | X)) for every X of 2..3 nodes: with share=True the occurrences are one and the same operator object."""
+    out = []
+    xs = [t for n in (2, 3) for t in trees_of_size(n)]
+    a, b, c = (("sym", ch) for ch in ATOMS)
+    for x in xs:
+        out.append(("cat", x, ("cat", b, x)))
+        out.append(("cat", x, x))
+        out.append(("alt", ("cat", x, a), x))
+        out.append(("plus", ("cat", x, ("cat", c, x))))
+        out.append(("cat", x, ("alt", b, x)))
+        out.append(("cat", a, ("cat", x, ("cat", b, ("cat", x, ("cat", c, x))))))
     return out
 
 
